@@ -44,10 +44,16 @@ def Msm.addMsm [Add F] (a b : Msm F G) : Msm F G :=
   { bases := a.bases ++ b.bases, scalars := a.scalars ++ b.scalars,
     fixed := b.fixed.foldl (fun acc ks => insertWith (· + ·) ks.1 ks.2 acc) a.fixed }
 
-/-- `Msm::accumulate_with_r` (off-circuit: scalars of `other` times `r` appended, fixed scalars
-`+= r * value`) = `AssignedMsm::accumulate_with_r` (in-circuit: `other.scale(r)`, `add_msm`). -/
+/-- `AssignedMsm::accumulate_with_r` (in-circuit): `other.scale(r)`, then `add_msm`. -/
 def Msm.accumulateWithR [Add F] [Mul F] (a b : Msm F G) (r : F) : Msm F G :=
   a.addMsm (b.scale r)
+
+/-- `Msm::accumulate_with_r` (off-circuit): bases of `other` appended, its scalars times `r`
+appended, and for every fixed-base scalar of `other`:
+`entry(key).and_modify(|e| *e += r * value).or_insert(r * value)`. -/
+def Msm.accumulateWithROff [Add F] [Mul F] (a b : Msm F G) (r : F) : Msm F G :=
+  { bases := a.bases ++ b.bases, scalars := a.scalars ++ b.scalars.map (· * r),
+    fixed := b.fixed.foldl (fun acc ks => insertWith (· + ·) ks.1 (r * ks.2) acc) a.fixed }
 
 /-- `Msm::collapse`: the variable part replaced by its value with scalar one. -/
 def Msm.collapse [Zero G] [Add G] [SMul F G] [One F] (m : Msm F G) : Msm F G :=
@@ -68,7 +74,19 @@ def powers [One F] [Mul F] (r : F) : Nat → List F
 def accumulateLoop [Add F] [Mul F] (acc : Acc F G) : List (Acc F G × F) → Acc F G
   | [] => acc
   | (o, ri) :: t =>
-    accumulateLoop { lhs := acc.lhs.accumulateWithR o.lhs ri, rhs := acc.rhs.accumulateWithR o.rhs ri } t
+    accumulateLoop { lhs := acc.lhs.accumulateWithROff o.lhs ri, rhs := acc.rhs.accumulateWithROff o.rhs ri } t
+
+/-- The loop of `AssignedAccumulator::accumulate` (in-circuit), on the same data. -/
+def accumulateLoopIn [Add F] [Mul F] (acc : Acc F G) : List (Acc F G × F) → Acc F G
+  | [] => acc
+  | (o, ri) :: t =>
+    accumulateLoopIn { lhs := acc.lhs.accumulateWithR o.lhs ri, rhs := acc.rhs.accumulateWithR o.rhs ri } t
+
+/-- `AssignedAccumulator::accumulate` given the in-circuit hash output `r`. -/
+def Acc.accumulateIn [Add F] [Mul F] [One F] (accs : List (Acc F G)) (r : F) : Option (Acc F G) :=
+  match accs with
+  | [] => none
+  | a :: t => some (accumulateLoopIn a (t.zip ((powers r accs.length).drop 1)))
 
 /-- `Accumulator::accumulate(accs)` given the hash output `r` (`none` for an empty slice, where
 the code indexes `accs[0]`). -/
